@@ -278,6 +278,59 @@ def step_attribute_freshness(prog: Program, rep: Report, rule: str, roles=("trac
             rep.ok(rule, fi.qual, "no per-particle value is kept in an attribute across the step", "none", fi.loc(), nontrivial=False)
 
 
+def call_attribute_freshness(prog: Program, rep: Report, rule: str, roles=("grid", "forcing")) -> None:
+    """A sampler that stores a value derived from its particle arguments in an attribute and reads that attribute
+    in the same call must have stored it on every path of that call: a store that is skipped on some path (a memo
+    keyed on the number of particles, on one of the coordinates, on "first call") hands a particle the value that was
+    computed for whichever particle had its row in an earlier call."""
+    from ..defassign import selfattr_key, stale_reads
+
+    n = 0
+    for role in roles:
+        if role not in prog.role_module:
+            continue
+        mod = prog.module(prog.role_module[role])
+        for fi in mod.functions.values():
+            if fi.cls != prog.role_class[role] or fi.name.startswith("__"):
+                continue
+            params = set(fi.params) - {"self"}
+            if not params:
+                continue
+            part = set(params)
+            changed = True
+
+            def mentions(e, part=part) -> bool:
+                return any(isinstance(x, ast.Name) and x.id in part for x in ast.walk(e))
+
+            while changed:
+                changed = False
+                for st in walk_no_nested(fi.node):
+                    if isinstance(st, (ast.Assign, ast.AnnAssign)) and st.value is not None and mentions(st.value):
+                        for t in st.targets if isinstance(st, ast.Assign) else [st.target]:
+                            for el in t.elts if isinstance(t, (ast.Tuple, ast.List)) else [t]:
+                                if isinstance(el, ast.Name) and el.id not in part:
+                                    part.add(el.id)
+                                    changed = True
+            tracked = set()
+            for st in walk_no_nested(fi.node):
+                if isinstance(st, (ast.Assign, ast.AnnAssign)) and st.value is not None and mentions(st.value):
+                    for t in st.targets if isinstance(st, ast.Assign) else [st.target]:
+                        for el in t.elts if isinstance(t, (ast.Tuple, ast.List)) else [t]:
+                            k = selfattr_key(el)
+                            if k:
+                                tracked.add(k)
+            n += 1
+            if not tracked:
+                rep.ok(rule, fi.qual, "no argument-derived value is kept in an attribute", "none", fi.loc(), nontrivial=False)
+                continue
+            bad = stale_reads(fi.node.body, tracked, selfattr_key)
+            for k in sorted(tracked):
+                node = bad.get(k)
+                rep.check(rule, fi.qual, f"argument-derived attribute {k} is stored on every path of the call before the call reads it", node is None, what_bad=f"`{short(node) if node is not None else ''}` can read {k} as left by an earlier call with other particles in the rows (the store is skipped on some path: a memo keyed on less than the arguments)", what_ok="stored before read on every path", loc=fi.loc(node) if node is not None else fi.loc())
+    if n == 0:
+        rep.add(rule, "grid/forcing", "samplers with particle arguments", None, "no methods found", "")
+
+
 def loop_carried(lp: ast.For) -> set:
     """Names assigned in the body of `lp` that can be read in an iteration before that iteration has
     assigned them (definite-assignment analysis of one iteration starting from the empty set)."""
@@ -689,6 +742,8 @@ def run(prog: Program, rep: Report, tier: str) -> None:
     rep.rule("R14.4", "per-step modules read the clock through step/dt only", 7)
     rep.rule("R14.6", "per-particle attributes of the tracker are recomputed in every step before they are read", 3)
     step_attribute_freshness(prog, rep, "R14.6", roles=("tracker", "forcing"))
+    rep.rule("R14.12", "samplers of the grid and the forcing do not answer from a per-particle value memoised in an earlier call: an argument-derived attribute is stored on every path before it is read", 8)
+    call_attribute_freshness(prog, rep, "R14.12")
     rep.rule("R14.7", "per-particle arrays paired element by element (arithmetic, masked stores, compiled kernels) are indexed by the same particle list: no particle is given another particle's level, metric or depth", 1)
     from . import align
 
